@@ -92,13 +92,14 @@ func intsJSON(v []int) Raw {
 }
 
 // tlcInt: TLC integers are 32-bit and the JSON reader wraps larger numbers silently (2^32 - 10 would read as -10),
-// so every number written to a trace saturates at +-(2^31 - 1) instead; the specifications never expect those two values.
+// so every number written to a trace saturates at the int32 bounds instead (a legitimate int32 value is never changed;
+// an out-of-range value can only be mistaken for MaxInt32 / MinInt32 themselves).
 func tlcInt(x int) int {
 	if x > 2147483647 {
 		return 2147483647
 	}
-	if x < -2147483647 {
-		return -2147483647
+	if x < -2147483648 {
+		return -2147483648
 	}
 	return x
 }
